@@ -259,7 +259,7 @@ def _parse_tables(tree):
     ps = find_func(tree, "parse_structured_value")
     out += _str_list("structuredValueDots", [ast.unparse(n).split("\n")[0] for n in ast.walk(ps) if isinstance(n, ast.If) and "function_name" in ast.unparse(n.test)] + [ast.unparse(n) for n in ast.walk(ps) if isinstance(n, ast.Assign) and "function_name.split" in ast.unparse(n)], "parse_structured_value: the dotted-name handling")
     ptl = find_func(tree, "parse_top_level_elements")
-    out += _str_list("topLevelOrder", _stmt_heads(ptl, ["categorize_top_level_objects", "parse_included_files", "options.extend", "macros.update", "plugin_specs", "resolve_plugins", "parse_version", "statements.extend"]), "parse_top_level_elements: the order of its steps")
+    out += _str_list("topLevelOrder", _stmt_heads(ptl, ["categorize_top_level_objects", "parse_included_files", "for kind in", "options.extend", "macros.update", "plugin_specs", "resolve_plugins", "parse_version", "own_version is not None", "statements.extend"]), "parse_top_level_elements: the order of its steps")
     pot = find_func(tree, "parse_object_template")
     out += _str_list("templateOrder", _stmt_heads(pot, ["just_once", "parse_inclusions", "parse_fields", "parse_friends", "_dedupe_field_list", "count_expr is not None", "for_each_expr is not None", "ObjectTemplate(", "register_template"]), "parse_object_template: the order of its steps")
     reg = None
@@ -269,7 +269,32 @@ def _parse_tables(tree):
     if reg is None:
         raise PinError("TableInfo.register not found")
     out += _str_list("registerNameTests", [ast.unparse(n) for n in ast.walk(reg) if isinstance(n, ast.Call) and isinstance(n.func, ast.Attribute) and n.func.attr == "startswith"], "TableInfo.register: the startswith tests on field names")
+    # the cycle / conflict checks added by the fix commits
+    pif = find_func(tree, "parse_included_file")
+    out += _pairs("includedFileRaises", _raises(pif), "parse_included_file: (condition, exception class) of every raise")
+    out += _str_list("includedFileStack", [ast.unparse(n).split("\n")[0] for n in ast.walk(pif) if isinstance(n, (ast.Expr, ast.Assign)) and "files_being_parsed" in ast.unparse(n)],
+                     "parse_included_file: how the stack of files being parsed is maintained")
+    im = find_func(tree, "include_macro")
+    out += _pairs("includeMacroRaises", _raises(im), "include_macro: (condition, exception class) of every raise")
+    out += _str_list("includeMacroStack", [ast.unparse(n).split("\n")[0] for n in ast.walk(im) if isinstance(n, ast.Expr) and "macros_being_expanded" in ast.unparse(n)],
+                     "include_macro: how the stack of macros being expanded is maintained")
+    out += _pairs("topLevelRaises", _raises(ptl), "parse_top_level_elements: (condition, exception class) of every raise")
+    loop = [n for n in ptl.body if isinstance(n, ast.For) and "kind" in ast.unparse(n.target)]
+    if len(loop) != 1:
+        raise PinError("parse_top_level_elements: the declaration loop `for kind in (...)` not found")
+    out += _str_list("declarationLoop", [ast.unparse(loop[0].iter)] + sorted(ast.unparse(n).split("\n")[0] for n in ast.walk(loop[0]) if isinstance(n, ast.Assign)),
+                     "the declaration loop: kinds in order, and how well_formed is computed (sorted)")
+    out += _str_list("versionMerge", [ast.unparse(n.test) for n in ast.walk(ptl) if isinstance(n, ast.If) and "version" in ast.unparse(n.test)],
+                     "parse_top_level_elements: the version tests")
     pr = find_func(tree, "parse_recipe")
+    out += _str_list("recursionGuard", [ast.unparse(h.type) + " -> " + ast.unparse(r.exc.func) for n in ast.walk(pr) if isinstance(n, ast.Try) for h in n.handlers for r in ast.walk(h) if isinstance(r, ast.Raise) and isinstance(r.exc, ast.Call)]
+                     + sorted(ast.unparse(c.func) for n in ast.walk(pr) if isinstance(n, ast.Try) for b in n.body for c in ast.walk(b) if isinstance(c, ast.Call) and ast.unparse(c.func).startswith("parse_")),
+                     "parse_recipe: the RecursionError guard and what it encloses")
+    pfn = find_func(tree, "parse_field")
+    out += _pairs("parseFieldRaises", _raises(pfn), "parse_field: (condition, exception class)")
+    out += _pairs("structuredValueRaises", _raises(ps), "parse_structured_value: (condition, exception class)")
+    out += _pairs("statementListRaises", _raises(psl), "parse_statement_list: (condition, exception class)")
+    out += _pairs("relpathRaises", _raises(find_func(tree, "relpath_from_inclusion_element")), "relpath_from_inclusion_element: (condition, exception class)")
     calls = [ast.unparse(n.func) for n in ast.walk(pr) if isinstance(n, ast.Call) and ast.unparse(n.func) in ("parse_file", "parse_statement_list", "build_update_recipe", "ParseResult")]
     order = sorted(((n.lineno, ast.unparse(n.func)) for n in ast.walk(pr) if isinstance(n, ast.Call) and ast.unparse(n.func) in ("parse_file", "parse_statement_list", "build_update_recipe", "ParseResult")))
     out += _str_list("parseRecipeOrder", [c for _, c in order], "parse_recipe: order of its steps")
